@@ -54,6 +54,19 @@ def eval_formula(formula, cells=None, addr=PROBE, default_sheet='Sheet1',
     Returns (tag, stage) where stage is 'compile' or 'eval'."""
     d = dict(cells or {})
     d[addr] = formula
+    warm = bool(cells) and _warm(formula)
+    if warm:
+        # metamorphic re-evaluation (every 4th formula with cells, chosen by
+        # a hash of its text): compile with PERTURBED numeric inputs,
+        # evaluate once, put the real inputs in with set_cell_value and
+        # evaluate again on the same evaluator.  By C04 that must equal a
+        # fresh model's answer, so any state carried from one evaluation to
+        # the next (caches in AST nodes, functions, ranges) shows up in every
+        # check that evaluates formulas over cells.
+        for a, v in list(d.items()):
+            if a != addr and isinstance(v, (int, float)) and not isinstance(
+                    v, bool):
+                d[a] = v + 1
     try:
         model = compile_dict(d, default_sheet)
     except Exception as err:  # noqa: BLE001
@@ -63,6 +76,22 @@ def eval_formula(formula, cells=None, addr=PROBE, default_sheet='Sheet1',
         ev = xl.Evaluator(model)
         for a, v in (presets or {}).items():
             ev.set_cell_value(a, v)
+        if warm:
+            try:
+                ev.evaluate(addr)
+            except Exception:  # noqa: BLE001 - only the second run counts
+                pass
+            for a, v in cells.items():
+                if d.get(a) != v:
+                    ev.set_cell_value(a, v)
     except Exception as err:  # noqa: BLE001
         return exc_tag(err), 'preset'
     return evaluate(model, addr, ev), 'eval'
+
+
+def _warm(formula):
+    import zlib
+    if '^' in formula or 'POWER' in formula.upper() or 'FACT' in \
+            formula.upper():
+        return False    # perturbed inputs could make power towers explode
+    return zlib.crc32(formula.encode('utf-8', 'replace')) % 4 == 0
